@@ -592,7 +592,14 @@ pub fn check(prop: &str, tier: Tier) -> i32 {
         let confirmed = runner(&original);
         let (minimised, target) = match confirmed {
             Some(cv) if cv.property == v.property && cv.kind == v.kind && cv.site == v.site => {
-                let m = minimise::minimise(&original, &cv, &mut runner, &mut budget);
+                // a fault in the minimiser must never cost the finding: fall back to the run as it happened
+                let m = match std::panic::catch_unwind(std::panic::AssertUnwindSafe(|| minimise::minimise(&original, &cv, &mut runner, &mut budget))) {
+                    Ok(m) => m,
+                    Err(_) => {
+                        eprintln!("HARNESS-WARN minimiser failed on run index {}; reporting the unminimised scenario", index);
+                        original.clone()
+                    }
+                };
                 (m, cv)
             }
             Some(cv) => {
